@@ -26,7 +26,7 @@ def gen_case(r: apigen.Rng):
     opts = [f"transport={tr}"]
     if r.maybe(0.3): opts.append("rest-numeric-enums")
     if r.maybe(0.2): opts.append("metadata")
-    mixins = r.sample(["operations", "iam", "locations"], r.randint(0, 3)) if r.maybe(0.45) else []
+    mixins = r.sample(["operations", "iam", "locations"], r.randint(0, 3)) if r.maybe(0.5) else []
     legacy_iam = r.maybe(0.12) and "iam" not in mixins
     if legacy_iam: opts.append("add-iam-methods")
     ads = r.maybe(0.1)
@@ -41,7 +41,12 @@ def gen_case(r: apigen.Rng):
         opts += r.sample(["python-gapic-namespace=Acme", "python-gapic-name=libra", "warehouse-package-name=acme-libra"], r.randint(1, 3))
     if not ads and r.maybe(0.1):
         opts.append("lazy-import")
-    return {"features": feats, "opts": opts, "mixins": sorted(mixins), "ads": ads, "rest_async": rest_async}
+    case = {"features": feats, "opts": opts, "mixins": sorted(mixins), "ads": ads, "rest_async": rest_async}
+    # PARTIAL mixins: a mixin declared under `apis` with ANY subset (none, one, several, all) of its RPCs bound in http.rules; the
+    # emitted transports carry exactly the bound ones and the emitted tests must mirror that per method
+    if mixins and r.maybe(0.65):
+        case["mixin_rules"] = {m: sorted(r.sample([n for n, *_ in MIXIN_RULES[m]], r.randint(0, len(MIXIN_RULES[m])))) for m in sorted(mixins)}
+    return case
 
 
 def build(case):
@@ -210,23 +215,29 @@ def build_files(case):
     return extra_files + [f]
 
 
+MIXIN_API = {"operations": "google.longrunning.Operations", "iam": "google.iam.v1.IAMPolicy", "locations": "google.cloud.location.Locations"}
+MIXIN_RULES = {
+    "operations": [("GetOperation", "get", "/v1/{name=operations/*}", None), ("ListOperations", "get", "/v1/{name=operations}", None),
+                   ("CancelOperation", "post", "/v1/{name=operations/*}:cancel", "*"), ("DeleteOperation", "delete", "/v1/{name=operations/*}", None)],
+    "iam": [("GetIamPolicy", "post", "/v1/{resource=shelves/*}:getIamPolicy", "*"), ("SetIamPolicy", "post", "/v1/{resource=shelves/*}:setIamPolicy", "*"),
+            ("TestIamPermissions", "post", "/v1/{resource=shelves/*}:testIamPermissions", "*")],
+    "locations": [("GetLocation", "get", "/v1/{name=projects/*/locations/*}", None), ("ListLocations", "get", "/v1/{name=projects/*}/locations", None)],
+}
+
+
+def mixin_rule_names(case, mixin):
+    """the RPCs of a declared mixin that get an `http.rules` entry: `case["mixin_rules"][mixin]` (ANY subset, incl. none), default all"""
+    chosen = (case.get("mixin_rules") or {}).get(mixin)
+    return [n for n, *_ in MIXIN_RULES[mixin]] if chosen is None else list(chosen)
+
+
 def service_yaml(case):
     apis, rules = ["acme.lib.v1.Library"], []
-    if "operations" in case["mixins"]:
-        apis.append("google.longrunning.Operations")
-        rules += [("google.longrunning.Operations.GetOperation", "get", "/v1/{name=operations/*}", None),
-                  ("google.longrunning.Operations.ListOperations", "get", "/v1/{name=operations}", None),
-                  ("google.longrunning.Operations.CancelOperation", "post", "/v1/{name=operations/*}:cancel", "*"),
-                  ("google.longrunning.Operations.DeleteOperation", "delete", "/v1/{name=operations/*}", None)]
-    if "iam" in case["mixins"]:
-        apis.append("google.iam.v1.IAMPolicy")
-        rules += [("google.iam.v1.IAMPolicy.GetIamPolicy", "post", "/v1/{resource=shelves/*}:getIamPolicy", "*"),
-                  ("google.iam.v1.IAMPolicy.SetIamPolicy", "post", "/v1/{resource=shelves/*}:setIamPolicy", "*"),
-                  ("google.iam.v1.IAMPolicy.TestIamPermissions", "post", "/v1/{resource=shelves/*}:testIamPermissions", "*")]
-    if "locations" in case["mixins"]:
-        apis.append("google.cloud.location.Locations")
-        rules += [("google.cloud.location.Locations.GetLocation", "get", "/v1/{name=projects/*/locations/*}", None),
-                  ("google.cloud.location.Locations.ListLocations", "get", "/v1/{name=projects/*}/locations", None)]
+    for mixin in ("operations", "iam", "locations"):
+        if mixin in case["mixins"]:
+            apis.append(MIXIN_API[mixin])
+            keep = set(mixin_rule_names(case, mixin))
+            rules += [(f"{MIXIN_API[mixin]}.{n}", verb, uri, body) for n, verb, uri, body in MIXIN_RULES[mixin] if n in keep]
     y = "type: google.api.Service\nconfig_version: 3\nname: lib.example.com\ntitle: Library API\napis:\n"
     y += "".join(f"- name: {a}\n" for a in apis)
     if rules:
@@ -368,6 +379,7 @@ def probe_flattened_mock_value(req, hits):
     return sorted(set(confirmed))
 
 
+LOCATIONS_ATTRERROR = re.compile(r"^AttributeError: '\w+Grpc(AsyncIO)?Transport' object has no attribute 'list_locations'")
 ASYNC_REST_NAMEERROR = re.compile(r"^NameError: name '\w+AsyncClient' is not defined")
 
 
@@ -399,6 +411,20 @@ def judge(ctx, case, out):
                      f"{len(known)} of {out['total']} emitted tests fail with NameError on the AsyncClient, e.g. {known[:2]}",
                      {**payload, "failing": sorted(set(norm_test(n) for n, _ in known))[:20]})
             bad = [x for x in bad if x not in known]
+        # known finding `locations-mixin-get-without-list`: trigger = Locations declared with GetLocation bound and ListLocations NOT
+        # bound, grpc among the transports (default templates); symptom = test_get_location_from_dict[_async] failing with
+        # AttributeError on the transport's missing `list_locations` (the emitted test patches the wrong stub).  Only those tests.
+        trig_loc = ("locations" in case["mixins"] and not case.get("ads")
+                    and "GetLocation" in mixin_rule_names(case, "locations") and "ListLocations" not in mixin_rule_names(case, "locations")
+                    and any(o.startswith("transport=") and "grpc" in o for o in case["opts"]))
+        known_loc = [(n, m) for n, m in bad if trig_loc and norm_test(n) in ("test_get_location_from_dict", "test_get_location_from_dict_async")
+                     and LOCATIONS_ATTRERROR.match(m or "")]
+        if known_loc:
+            ctx.fail("emitted-tests-fail:locations-mixin-get-without-list",
+                     f"{len(known_loc)} of {out['total']} emitted tests fail: {known_loc[:2]}",
+                     {**payload, "failing": sorted(set(norm_test(n) for n, _ in known_loc))})
+            bad = [x for x in bad if x not in known_loc]
+            known = known + known_loc
         if bad or (out["rc"] != 0 and not known):
             names = sorted(set(norm_test(n) for n, _ in bad))
             ctx.fail("emitted-tests-fail:" + (names[0] if names else "collection"),
@@ -831,6 +857,13 @@ CORPUS = [
     # open finding (corpus/C13/recursive_map_first_field.json): `Field.mock_value` of a flattened message whose first field is a map
     # back to the message never ends; replayed on every run
     {"features": ["tree_map_first"], "opts": ["transport=grpc"], "mixins": [], "ads": False},
+    # partial mixins (round 9): IAMPolicy declared with a strict subset of its RPCs bound; Operations / Locations partially bound
+    {"features": ["custom_lro", "delete_void"], "opts": ["transport=grpc+rest"], "mixins": ["iam", "locations", "operations"], "ads": False,
+     "mixin_rules": {"iam": ["GetIamPolicy", "SetIamPolicy"], "locations": ["ListLocations"], "operations": ["CancelOperation", "GetOperation"]}},
+    {"features": ["server_stream"], "opts": ["transport=grpc"], "mixins": ["iam", "locations"], "ads": False, "mixin_rules": {"iam": ["GetIamPolicy"], "locations": []}},
+    {"features": ["paged_map"], "opts": ["transport=rest"], "mixins": ["iam", "operations"], "ads": False, "mixin_rules": {"iam": [], "operations": ["ListOperations"]}},
+    # open finding (corpus/C13/locations_get_without_list.json): GetLocation bound, ListLocations not, grpc transport
+    {"features": ["delete_void"], "opts": ["transport=grpc+rest"], "mixins": ["locations"], "ads": False, "mixin_rules": {"locations": ["GetLocation"]}},
     # the same tree with the map in second position is part of the profile; naming overrides
     {"features": ["tree_map", "wkt_flattened", "second_file", "nested_enum", "enum_late_nonzero", "lro_empty"],
      "opts": ["transport=grpc+rest", "python-gapic-namespace=Acme", "python-gapic-name=libra", "warehouse-package-name=acme-libra"], "mixins": [], "ads": False},
@@ -860,6 +893,8 @@ def run(ctx):
         for ft in case["features"]:
             ctx.count("feature", ft)
         ctx.count("transport", case["opts"][0]); ctx.count("mixins", ",".join(case["mixins"]) or "none")
+        for m in case["mixins"]:
+            ctx.count("mixin_rules_bound", f"{m}:{len(mixin_rule_names(case, m))}/{len(MIXIN_RULES[m])}")
         judge(ctx, case, out)
 
 
